@@ -80,6 +80,10 @@ OWN = [
                         "m": "<%! NAME = 'leaf' %><%inherit file='mid.html'/><%def name='who()'>leaf</%def><%def name='card()'>\u00abcard:${local.module.NAME}|${self.module.NAME}|${parent.module.NAME}|${parent.who()}|${local.who()}|${self.who()}|${'next' in context.keys()}|${x}\u00bb</%def><%def name='tag()' filter='trim'>\u00abtag:${local.module.NAME}${x}\u00bb</%def>leaf${card()}${tag()}"}, {"x": "1"}, None),
     ("getdef-inherit2", {"base.html": "<%! NAME = 'base' %><%def name='who()'>base</%def><%def name='wrap()'>\u00abwrap:${local.module.NAME}|${self.module.NAME}\u00bb</%def>B[${self.body()}]${self.wrap()}",
                          "m": "<%! NAME = 'leaf' %><%inherit file='base.html'/><%def name='card()' buffered='True'>\u00abcard:${local.module.NAME}|${parent.module.NAME}|${parent.who()}|${x}\u00bb</%def>leaf${card()}"}, {"x": "1"}, None),
+    ("strict-many-missing-no-def", {"m": "${alpha}${bravo}${charlie}${delta}${echo}${foxtrot}${golf}${hotel}\n% if india:\n${juliet}\n% endif\n"}, {}, None, {"strict_undefined": True}),
+    ("strict-many-missing-in-def", {"m": "<%def name='q()'>${india}${juliet}${kilo}${lima}${mike}${november}</%def>${q()}"}, {}, None, {"strict_undefined": True}),
+    ("strict-many-missing", {"m": "${alpha}${bravo}${charlie}${delta}${echo}${foxtrot}${golf}${hotel}<%def name='q()'>${india}${juliet}${kilo}${lima}</%def>${q()}"}, {}, None, {"strict_undefined": True}),
+    ("many-names-no-def", {"m": "${alpha}${bravo}${charlie}${delta}${echo}${foxtrot}${golf}${hotel}\n% if india:\n${juliet}${kilo}\n% endif\n<%block name='b'>${lima}${mike}${november}${oscar}</%block>"}, dict(alpha="a", bravo="b", charlie="c", delta="d", echo="e", foxtrot="f", golf="g", hotel="h", india="i", juliet="j", kilo="k", lima="l", mike="m", november="n", oscar="o"), None),
     ("cached", {"m": "<%def name='f()' cached='True' cache_impl='c17rec'>c${x}</%def>${f()}${f()}"}, {"x": "1"}, None),
 ]
 
@@ -95,11 +99,12 @@ def own_corpus():
     out = []
     for name, enc, text, ctx, exp in NON_UTF8:
         out.append({"id": "OWN:enc-" + name, "files": {"m.html": text}, "main": "m.html", "ctx": ctx, "expected": exp, "template_kwargs": {}, "env": None, "encoding": enc})
-    for name, files, ctx, exp in OWN:
+    for entry in OWN:
+        name, files, ctx, exp = entry[:4]
         f = {("m.html" if k == "m" else k): v for k, v in files.items()}
         if name == "cached":
             continue
-        out.append({"id": "OWN:" + name, "files": f, "main": "m.html", "ctx": ctx, "expected": exp, "template_kwargs": {}, "env": None})
+        out.append({"id": "OWN:" + name, "files": f, "main": "m.html", "ctx": ctx, "expected": exp, "template_kwargs": dict(entry[4]) if len(entry) > 4 else {}, "env": None})
     return out
 
 
@@ -239,7 +244,7 @@ def judge(it, res, st):
             bad("reference:string-path", "output equals the reference output", it["expected"], base)
     text = it["files"][it["main"]]
     obs = []  # (label, facts)
-    for p in ("string", "file", "moddir", "moduletemplate", "render_unicode", "render_context", "modulename_callable", "cmd"):
+    for p in ("string", "file", "moddir", "moduletemplate", "render_unicode", "render_context", "modulename_callable", "modulename_relative", "module_filename_relative", "moduletemplate_file", "cmd"):
         if p == "render_context" and re.search(r"<%page[^>]*\bargs\s*=", text):
             continue  # render_context() takes the body's <%page> arguments explicitly; render() fills them from the data
         if p in r0:
@@ -273,6 +278,14 @@ def judge(it, res, st):
                 bad("defs:%s" % label.split(":")[-1], "list_defs agrees on every path", r0["string"]["defs"], f["defs"])
         if "has_def" in f and f["has_def"] != r0["string"]["has_def"]:
             bad("has_def:%s" % label.split(":")[-1], "has_def agrees on every path", r0["string"]["has_def"], f["has_def"])
+        if label.startswith("seed"):
+            same = r0.get(label.split(":")[1], {})
+            # (the TEXT of the generated module may list names in another order under another seed - e.g. the key
+            # list of a <% %> block's __M_locals.update - without any difference in behaviour: module texts are
+            # compared as multisets of lines below; an exact comparison was tried and removed as demanding more
+            # than the property states)
+            if f.get("render_msg") is not None and same.get("render_msg") is not None and f["render_msg"] != same["render_msg"]:
+                bad("path:error-text:hashseed", "the error a render raises does not depend on PYTHONHASHSEED", same["render_msg"], "%s: %s" % (label, f["render_msg"]))
         if f.get("code_unordered") and r0["string"].get("code_unordered"):
             st.oracles["code"] += 1
             if f["code_unordered"] != r0["string"]["code_unordered"]:
